@@ -177,6 +177,25 @@ Definition stop_mixer : M unit := stop_by_class CMixer.
 Definition stop_remaining : M unit :=
   fun s => (Val tt, mkSt [] (rev (map ERemain (reg s)) ++ log s) (v_core s)).
 
+(* stop_remaining_actors in the presence of leftovers that are not registered component
+   classes and may respawn while they are being stopped (per-connection helper actors):
+   [left] actors are registered, at most [budget] respawns can still happen; one pass of
+   ActorRegistry.stop_all() stops every registered actor, each of which may respawn one *)
+Definition sweep_pass (left budget : nat) : nat * nat :=
+  (Nat.min left budget, budget - Nat.min left budget).
+
+(* `while num_actors:` *)
+Fixpoint sweep_while (fuel left budget : nat) : nat :=
+  match fuel with
+  | O => left
+  | S f => if Nat.eqb left 0 then 0
+           else let '(l, b) := sweep_pass left budget in sweep_while f l b
+  end.
+
+(* a single `if num_actors:` pass *)
+Definition sweep_once (left budget : nat) : nat :=
+  if Nat.eqb left 0 then 0 else fst (sweep_pass left budget).
+
 Definition try_body (o : oracle) : M unit :=
   (if o_has_mixer o then start_mixer (o_mixer o) else ret tt) >>
   start_audio (o_audio o) (o_audio_early o) >>
